@@ -24,6 +24,10 @@ def run(res, pool, tier, seed):
     jobs.append(dict(module="MC_FlatBody.tla", tag="near-s8", invariants=["Typed", "InBoth", "Emit"], timeout=3600,
                      constants=dict(GENK=set(), NGEN=1, S=8, BODIES={"tet", "pyr", "wedge", "ppyr", "obl"}, KF={"Point", "HalfLine"}, SEED=sd,
                                     NSHARD=400 if tier == "quick" else 40, NXCHECK=1000)))
+    # bodies with edges / faces of generic slope: crossing points are not dyadic
+    jobs.append(dict(module="MC_FlatBody.tla", tag="generic-slopes", invariants=INVS, timeout=3600,
+                     constants=dict(GENK=set(), NGEN=1, S=2, BODIES={"gprismA", "gprismB", "gtriA", "gtriB"}, KF=set(FLAT), SEED=sd,
+                                    NSHARD=250 if tier == "quick" else 20, NXCHECK=8)))
     engine.run_jobs(res, jobs, pool)
     import traces
     traces.run_for(res, ["unit_tests", "driver"] if tier != "quick" else ["unit_tests"], {"C02"}, seed=seed + 1, nsessions=250 if tier == "quick" else 2500)
